@@ -742,7 +742,18 @@ func c6Write(c *Ctx) {
 			}
 		}
 	})
-	c.Check(ok && over == rc+".cores", "R6.3", name, "all-cores", coreWrite.Pos(), "every accepting core is written (range over %s, no early exit) %s", over, why)
+	// ... in every round: the call is on every path from the loop head back to it (no `continue` around it - a core
+	// that accepted the entry in Check is written whatever it would say now)
+	everyRound := true
+	if h := LoopHeader(coreWrite.Block()); h != nil {
+		for _, p := range h.Preds {
+			if (p == h || h.Dominates(p)) && !coreWrite.Block().Dominates(p) {
+				everyRound = false
+				why += " the call can be skipped within a round (conditional write)"
+			}
+		}
+	}
+	c.Check(ok && everyRound && over == rc+".cores", "R6.3", name, "all-cores", coreWrite.Pos(), "every accepting core is written (range over %s, no early exit, in every round) %s", over, why)
 	// a tee registered as ONE core (under a wrapper that registers itself) must hand the final entry to all its branches too
 	if mw := c.Method(CorePath, "multiCore", "Write"); c.Anchor("R6.3", "zapcore.multiCore.Write", mw != nil) {
 		okT, whyT, in2, _ := VisitsAll(mw, func(cl ssa.CallInstruction) bool {
